@@ -159,10 +159,21 @@ func runRig(o rigOpts, body func(r *rig)) (bubbleMsg string) {
 }
 
 // quiesce waits until nothing in the bubble can make progress without time passing.
-func quiesce() { synctest.Wait() }
+func quiesce() {
+	if realClock {
+		time.Sleep(50 * time.Millisecond)
+		return
+	}
+	synctest.Wait()
+}
 
 // settle lets d of virtual time pass and then waits for quiescence.
 func settle(d time.Duration) {
+	if realClock {
+		// real clock: long waits (heartbeat periods, drains) are capped; they only serve "nothing more happens" clauses
+		time.Sleep(min(d, 7*time.Second) + 50*time.Millisecond)
+		return
+	}
 	time.Sleep(d)
 	synctest.Wait()
 }
@@ -209,6 +220,7 @@ func startWatchdog(t *testing.T, limit time.Duration) (stopFn func()) {
 					s := string(buf[:n])
 					mutex := strings.Contains(s, "sync.(*Mutex).Lock") || strings.Contains(s, "sync.(*RWMutex)")
 					fmt.Printf("\nVERIF-STALL no progress for %v of real time (goroutine parked on a mutex: %v)\n%s\n", limit, mutex, s[:min(len(s), 60000)])
+					flushAllEvidence()
 					if mutex {
 						os.Exit(4) // a goroutine waits for a mutex and nothing else moves: "mutex left held" where the check says so
 					}
